@@ -171,6 +171,9 @@ TARGETED_PROGS = [
     'x = (a\n     and  # why\n                          b\n     and c)\ny = (p or  # cp\n     q or  # cq\n     r)\n',
     'z = (a\n     <  # lt\n            b\n     <= c)\nw = [\n    e1,  # c1\n    e2,  # c2\n    e3  # c3\n]\n',
     'match v:\n    case (a  # ca\n          | b  # cb\n          | c  # cc\n          ): pass\n',
+    # a multi-line BYTES literal standing alone as a statement in an indented block (no docstring: its lines are content); list fields that start with None and hold nodes behind it
+    'def f():\n    b\"\"\"x\n    y\"\"\"\n    return 1\nclass K:\n    def m(self):\n        x = 1\n        b\'\'\'p\n        q\'\'\'\n',
+    'if x:\n    def f(*, a, b=1): pass\n    y = {**base, "k": v}\n    z = lambda *, p, q=2: p\n',
     # statements joined by a line continuation and a ';' on the next physical line (recorded finding of the statement slice engine for trailing-trivia kinds beyond the line)
     'if x:\n    a \\\n  ;\n    b\nwhile y:\n    c; \\\n    d\n',
     # sequences inside replacement fields of f-strings: the self-documenting text and the "{{" guard must be maintained by cuts as by deletes
